@@ -265,7 +265,9 @@ def m_try_branch(ci):
             return ev.mk_adt(CFLOW, "Continue", (x[4][0],))
         return ev.mk_adt(CFLOW, "Break", (err(ev, x[4][0]),))
     d = ("discr", x)
-    okv = ("proj", ("proj", x, ("downcast", 0, "Ok")), ("field", 0, "?"))
+    dt = ci.dest_ty()
+    okty = dt["args"][1]["s"] if dt.get("k") == "adt" and len(dt.get("args", [])) == 2 else "?"
+    okv = ("proj", ("proj", x, ("downcast", 0, "Ok")), ("field", 0, okty))
     erv = ("proj", ("proj", x, ("downcast", 1, "Err")), ("field", 0, "?"))
     return ("fork", [
         ([(d, 0)], ev.mk_adt(CFLOW, "Continue", (okv,))),
@@ -278,26 +280,28 @@ def m_from_residual(ci):
     x = ci.args[0]
     targs = ci.targs()
     e = x[4][0] if x[0] == "adt" else ("proj", ("proj", x, ("downcast", 1, "Err")), ("field", 0, "?"))
-    # targs = [T, F, E]
+    # impl<T, E, F: From<E>> FromResidual<Result<Infallible, E>> for Result<T, F>: generic args are [T, E, F]
     if len(targs) >= 3 and strip(targs[1]) != strip(targs[2]):
-        # find a workspace From<E> for F impl
+        src_ty, dst_ty = targs[1], targs[2]
         for f in ci.ev.prog.fns.values():
             imp = f.get("impl") or {}
-            if imp.get("trait") == "core::convert::From" and f.get("item") == "from" and strip(imp.get("self_ty", "")) == strip(targs[1]) and [strip(t) for t in imp.get("trait_args", [])] == [strip(targs[2])]:
-                ci.st.aux.setdefault("from_conv", [])
-                # evaluate the conversion eagerly through a sub-evaluator (loop-free, single path)
+            if imp.get("trait") == "core::convert::From" and f.get("item") == "from" and strip(imp.get("self_ty", "")) == strip(dst_ty) and [strip(t) for t in imp.get("trait_args", [])] == [strip(src_ty)]:
+                # evaluate the workspace conversion eagerly through a sub-evaluator (loop-free, single path)
                 from mireval import Evaluator
                 sub = Evaluator(ev.prog, ev.models, ev.log_on, {}, ev.no_inline)
                 sub.fnrefs = ev.fnrefs
                 paths = [p for p in sub.run_body(f, f["body"], [e]) if p.kind == "return"]
                 if len(paths) == 1:
                     return err(ev, sub.detach(paths[0].state, paths[0].value))
-        e = ("app", "from:" + strip(targs[1]), (e,))
+        e = ("app", "from:" + strip(dst_ty), (e,))
     return err(ev, e)
 
 
 def strip(s):
-    s = re.sub(r"'[a-z_]+\b", "'_", s)
+    """type string modulo lifetimes, spacing and the parenthesisation of dyn types"""
+    s = re.sub(r"\s*\+\s*'[a-z_]+\b", "", s)
+    s = re.sub(r"'[a-z_]+\b,?\s*", "", s)
+    s = s.replace("(", "").replace(")", "").replace("<>", "")
     return s.replace(" ", "")
 
 
